@@ -41,6 +41,7 @@ __attribute__((noinline)) static void check_image(const uint8_t* image, size_t t
     else V_ASSERT(image[i] == 0, "constpool: bytes that belong to no constant are zero");
   }
 }
+__attribute__((noinline)) static bool same_bytes(const uint8_t* a, const uint8_t* b, size_t n) { bool eq = true; for (unsigned i = 0; i < MAXB; i++) if (i < n && a[i] != b[i]) eq = false; return eq; }
 __attribute__((noinline)) static void copy_bytes(uint8_t* d, const uint8_t* s, unsigned n) { for (unsigned i = 0; i < 16; i++) if (i < n) d[i] = s[i]; }
 __attribute__((noinline)) static void fresh_bytes(uint8_t* d) { for (unsigned i = 0; i < 16; i++) d[i] = nondet_u8(); }
 __attribute__((noinline)) static void keep_bytes(Entry& e, const uint8_t* data, size_t size) { for (unsigned i = 0; i < MAXB; i++) e.bytes[i] = i < size && i < 16 ? data[i] : 0; }
@@ -71,51 +72,46 @@ static inline void add_sized(ConstPool& pool, Entry& e, const uint8_t* data) {
   verif_observe(uint32_t(err)); verif_observe(off);
 }
 
-// SEL: which sizes the symbolic selector may pick. 0: {0,1,2,3,4,65} (no sub-constant sharing); 1: {1,2,4,8,16}.
-template<unsigned SEL>
-static inline void add_any(ConstPool& pool, Entry& e, const uint8_t* data) {
-  unsigned s = nondet_u8() % (SEL == 0 ? 6 : 5);
-  if (SEL == 0) {
-    switch (s) { case 0: add_sized<0>(pool, e, data); break; case 1: add_sized<1>(pool, e, data); break; case 2: add_sized<2>(pool, e, data); break;
-                 case 3: add_sized<3>(pool, e, data); break; case 4: add_sized<4>(pool, e, data); break; default: add_sized<65>(pool, e, data); break; }
-  } else {
-    switch (s) { case 0: add_sized<1>(pool, e, data); break; case 1: add_sized<2>(pool, e, data); break; case 2: add_sized<4>(pool, e, data); break;
-                 case 3: add_sized<8>(pool, e, data); break; default: add_sized<16>(pool, e, data); break; }
-  }
-}
+// A scenario = a fixed sequence of sizes S1, S2, S3 (NONE = no third add) with symbolic data. The sizes are constants because
+// every add into a tree that already holds nodes is expensive for the solver (tagged child links); with symbolic sizes the
+// trees touched are symbolic too and no verdict is reached. The data of a later add is fresh, or a copy of the first
+// constant, its upper half or its bytes 4..7 - so equal constants and sub-constants of earlier ones are inside the bound.
+static const size_t NONE = 999;
+template<size_t S> struct IsValid { static const bool v = S == 1 || S == 2 || S == 4 || S == 8 || S == 16 || S == 32 || S == 64; };
 
-__attribute__((noinline)) static bool same_bytes(const uint8_t* a, const uint8_t* b, size_t n) { bool eq = true; for (unsigned i = 0; i < MAXB; i++) if (i < n && a[i] != b[i]) eq = false; return eq; }
-
-// K adds, symbolic data: 16 symbolic bytes per add; wider constants are not used here (SEL 1 stops at 16). To get equal
-// constants and halves of earlier ones inside the bound, each later add may copy its data from an earlier add (whole or a
-// 4/8-byte aligned part of it).
-template<unsigned K, unsigned SEL>
+template<size_t S1, size_t S2, size_t S3, bool FILL>
 static void pool_scenario() {
+  const unsigned K = S3 == NONE ? 2 : 3;
+  const bool v1 = IsValid<S1>::v, v2 = IsValid<S2>::v, v3 = S3 != NONE && IsValid<S3>::v;
+  const bool can_dedup = (v1 && S1 == S2) || (v3 && (S3 == S1 || S3 == S2));
+  const bool can_share = (S1 == 16 && (S2 == 8 || S3 == 8)) || ((S1 == 8 || S1 == 16) && (S2 == 4 || S3 == 4));
+  const bool can_distinct = (v1 && v2) || (v3 && (v1 || v2));
   Arena& arena = env_arena();
   alignas(8) static unsigned char pool_mem[sizeof(ConstPool)];
   ConstPool& pool = *new (pool_mem) ConstPool(arena);
   V_ASSERT(pool.is_empty() && pool.size() == 0 && pool.alignment() == 0, "constpool: starts empty");
   Entry e[MAXK]; uint8_t data[MAXK][16];
+  e[2].ok = false; e[2].size = 0; e[2].off = 0;
   for (unsigned k = 0; k < K; k++) {
     fresh_bytes(data[k]);
     if (k > 0) {
-      unsigned src = nondet_u8() % 4;   // 0: fresh data; 1: copy of add 0; 2: second half (8..15 -> 0..7) of add 0; 3: bytes 4..7 of add 0
+      unsigned src = nondet_u8() % 4;   // 0: fresh data; 1: copy of add 0; 2: upper half (8..15 -> 0..7) of add 0; 3: bytes 4..7 of add 0
       if (src == 1) copy_bytes(data[k], data[0], 16);
       if (src == 2) copy_bytes(data[k], data[0] + 8, 8);
       if (src == 3) copy_bytes(data[k], data[0] + 4, 4);
     }
-    size_t offs_before[MAXK]; for (unsigned j = 0; j < k; j++) offs_before[j] = e[j].off;
-    add_any<SEL>(pool, e[k], data[k]);
+    if (k == 0) add_sized<S1>(pool, e[0], data[0]);
+    else if (k == 1) add_sized<S2>(pool, e[1], data[1]);
+    else add_sized<S3 == NONE ? 1 : S3>(pool, e[2], data[2]);
     V_ASSERT(!slot_overflow, "harness: node storage suffices");
-    // stability: adding again what was added before returns the offset handed out then, and changes nothing
-    for (unsigned j = 0; j < k; j++) (void)offs_before[j];
   }
   // pairwise: dedup / disjointness / sharing
-  for (unsigned i = 0; i < K; i++) for (unsigned j = 0; j < i; j++) if (e[i].ok && e[j].ok) {
+  bool saw_dedup = false, saw_shared = false, saw_distinct = false;
+  for (unsigned i = 0; i < MAXK; i++) for (unsigned j = 0; j < i; j++) if (i < K && e[i].ok && e[j].ok) {
     const Entry& a = e[j]; const Entry& b = e[i];   // a added before b
     if (a.size == b.size && same_bytes(a.bytes, b.bytes, a.size)) {
       V_ASSERT(a.off == b.off, "constpool: equal constants of the same size share one offset");
-      if (i == 1) V_WITNESS("constpool-dedup");
+      saw_dedup = true;
     } else {
       bool disjoint = a.off + a.size <= b.off || b.off + b.size <= a.off;
       if (!disjoint) {
@@ -124,37 +120,66 @@ static void pool_scenario() {
         bool inside = small.off >= big.off && small.off + small.size <= big.off + big.size && big.size > small.size;
         bool eq = inside && part_equal(big, small);
         V_ASSERT(inside && eq, "constpool: overlapping storage is a smaller constant inside a larger one with equal bytes");
-        if (SEL == 1 && i == 1) V_WITNESS("constpool-shared");
-      }
+        saw_shared = true;
+      } else saw_distinct = true;
     }
   }
-  // re-adding every constant: same offset, pool unchanged
-  { size_t sz = pool.size(), al = pool.alignment();
-    unsigned again = nondet_u8() % K;
-    if (e[again].ok) {
-      size_t off2 = 99; Error err;
-      switch (e[again].size) { case 1: err = pool.add(e[again].bytes, 1, Out(off2)); break; case 2: err = pool.add(e[again].bytes, 2, Out(off2)); break; case 4: err = pool.add(e[again].bytes, 4, Out(off2)); break;
-                               case 8: err = pool.add(e[again].bytes, 8, Out(off2)); break; default: err = pool.add(e[again].bytes, 16, Out(off2)); break; }
-      V_ASSERT(err == Error::kOk && off2 == e[again].off && pool.size() == sz && pool.alignment() == al, "constpool: offsets are stable - adding a constant again returns its offset and changes nothing");
-      V_WITNESS("constpool-stable");
-    }
-  }
-  // written image
+  if (can_dedup && saw_dedup) V_WITNESS("constpool-dedup");
+  if (can_share && saw_shared) V_WITNESS("constpool-shared");
+  if (can_distinct && saw_distinct) V_WITNESS("constpool-distinct-disjoint");
+  if (!can_share) V_ASSERT(!saw_shared, "constpool: storage is shared only between a constant and a sub-constant of at least 4 bytes");
+  // written image (FILL: only in the scenarios whose trees hold few nodes - walking a tree costs the solver as much as building it)
   const size_t total = pool.size();
   V_ASSERT(total <= 48, "constpool: three constants of at most 16 bytes need at most 48 bytes");
-  uint8_t image[48 + 8]; paint(image);
-  pool.fill(image);
-  size_t max_size = 0; for (unsigned k = 0; k < K; k++) if (e[k].ok && e[k].size > max_size) max_size = e[k].size;
+  size_t max_size = 0, max_end = 0;
+  for (unsigned k = 0; k < MAXK; k++) if (k < K && e[k].ok) { if (e[k].size > max_size) max_size = e[k].size; if (e[k].off + e[k].size > max_end) max_end = e[k].off + e[k].size; }
   V_ASSERT(pool.alignment() == max_size, "constpool: alignment is the largest constant size");
-  check_image(image, total, e, K);
-  verif_observe(image[0]); verif_observe(image[1]); verif_observe(image[4]); verif_observe(image[8]);
-  bool any = false; for (unsigned k = 0; k < K; k++) if (e[k].ok) any = true;
-  if (any) V_WITNESS("constpool-filled");
-  bool anybad = false; for (unsigned k = 0; k < K; k++) if (!e[k].ok) anybad = true;
-  if (SEL == 0 && anybad) V_WITNESS("constpool-refused");
-  if (total > 0 && e[0].ok && e[1].ok && e[0].off + e[0].size < e[1].off) V_WITNESS("constpool-gap");
+  V_ASSERT(total >= max_end, "constpool: size() covers every constant");
+  verif_observe(total);
+  if (FILL) {
+    uint8_t image[48 + 8]; paint(image);
+    pool.fill(image);
+    check_image(image, total, e, K);
+    verif_observe(image[0]); verif_observe(image[1]); verif_observe(image[4]); verif_observe(image[8]);
+    if (v1 || v2 || v3) V_WITNESS("constpool-filled");
+  }
+  if (v1 && v2 && S1 < S2 && e[0].off + e[0].size < e[1].off) V_WITNESS("constpool-gap");
+  if (!v1 || !v2) V_WITNESS("constpool-refused");
 }
-HARNESS h_pool_small2() { pool_scenario<2, 0>(); }
-HARNESS h_pool_small3() { pool_scenario<3, 0>(); }
-HARNESS h_pool_wide2() { pool_scenario<2, 1>(); }
-HARNESS h_pool_wide3() { pool_scenario<3, 1>(); }
+#define POOL_H(NAME, A, B, C, FILL) HARNESS h_pool_##NAME() { pool_scenario<A, B, C, FILL>(); }
+POOL_H(1_4_2, 1, 4, 2, true)          // alignment gap created by the second add, reused by the third
+POOL_H(4_4, 4, 4, NONE, false)         // same tree: equal -> one offset, different -> two
+POOL_H(8_4, 8, 4, NONE, false)         // 8-byte constant registers its two halves; a later 4-byte add may hit one
+POOL_H(2_65, 2, 65, NONE, true)       // invalid sizes
+POOL_H(0_3, 0, 3, NONE, true)
+POOL_H(1_8_1, 1, 8, 1, true)          // 7-byte gap split into 1+2+4, the third add takes the 1-byte gap
+POOL_H(4_4_4, 4, 4, 4, false)          // three nodes in one tree (rotation)
+POOL_H(8_8, 8, 8, NONE, false)
+POOL_H(16_8_4, 16, 8, 4, false)        // quarter and half of a 16-byte constant
+POOL_H(4_8, 4, 8, NONE, false)         // small first: the half already exists when the wide constant registers its halves
+POOL_H(1_4_1, 1, 4, 1, false)         // stability: the third add may repeat the first constant after the pool has grown
+POOL_H(4_8_4, 4, 8, 4, false)
+
+// Shared sub-constants without a second add (an add into a tree that already holds two nodes exhausts the memory cap):
+// after add(8 bytes) the lookup the pool itself uses finds both 4-byte halves, registered as shared nodes inside the parent.
+HARNESS h_pool_8_lookup() {
+  Arena& arena = env_arena();
+  alignas(8) static unsigned char pool_mem[sizeof(ConstPool)];
+  ConstPool& pool = *new (pool_mem) ConstPool(arena);
+  Entry e; uint8_t data[16]; fresh_bytes(data);
+  add_sized<8>(pool, e, data);
+  V_ASSERT(e.off == 0 && pool.size() == 8 && pool.alignment() == 8 && pool.min_item_size() == 8, "constpool: first 8-byte constant sits at offset 0");
+  V_ASSERT(slots_used == (same_bytes(data, data + 4, 4) ? 2u : 3u), "constpool: one parent node plus one shared node per distinct half");
+  for (unsigned h = 0; h < 2; h++) {
+    ConstPool::Node* n = pool._tree[ConstPool::kIndex4].get(data + 4 * h);
+    V_ASSERT(n != nullptr && n->_shared == 1, "constpool: each 4-byte half of an 8-byte constant is registered as a shared node");
+    bool both_equal = same_bytes(data, data + 4, 4);
+    V_ASSERT(n->_offset == (both_equal ? 0u : 4u * h), "constpool: a shared node points into its parent at the position of its bytes");
+    V_ASSERT(same_bytes(static_cast<const uint8_t*>(n->data()), data + 4 * h, 4), "constpool: a shared node carries the bytes of the parent at its offset");
+  }
+  uint8_t other[4]; for (int i = 0; i < 4; i++) other[i] = nondet_u8();
+  ConstPool::Node* o = pool._tree[ConstPool::kIndex4].get(other);
+  V_ASSERT((o != nullptr) == (same_bytes(other, data, 4) || same_bytes(other, data + 4, 4)), "constpool: nothing but the two halves is found among the 4-byte constants");
+  V_ASSERT(pool._tree[ConstPool::kIndex8].get(data) != nullptr && pool._tree[ConstPool::kIndex8].get(data)->_shared == 0 && pool._tree[ConstPool::kIndex2].is_empty(), "constpool: the parent is a non-shared 8-byte node and nothing below 4 bytes is registered");
+  V_WITNESS("constpool-halves-shared");
+}
